@@ -1,4 +1,109 @@
-import DDV.Gen.Lemmas.Tree
+/-
+  C17 — Access specifiers decide exactly which operations exist.
+
+  `DDV.Extracted.Tables` is regenerated from /repo's source on every run: the marker types, the
+  `impl ReadCapability / WriteCapability for …` lines, and for every public operation of
+  `RegisterOperation` / `BufferOperation` (and every embedded-io trait impl) the capability bounds
+  of its `impl … where Access: …` block.
+-/
+import DDV.Extracted.Tables
+import DDV.Gen.Emit
+
 namespace DDV.Props.C17
-theorem placeholder : True := trivial
+open DDV.Extracted DDV.Gen
+
+/-- Whether the method resolves for an accessor typed with `marker` (trait-bound satisfaction). -/
+def available (marker : String) (op : String × Bool × Bool) : Bool :=
+  (!op.2.1 || readMarkers.contains marker) && (!op.2.2 || writeMarkers.contains marker)
+
+/-- What an access value means (the property): RW includes both, RO reading, WO writing. -/
+def includesRead (marker : String) : Bool := marker == "RW" || marker == "RO"
+def includesWrite (marker : String) : Bool := marker == "RW" || marker == "WO"
+
+/-- What each operation is, from the property text: read operations, write operations, modify. -/
+def isReadOp (name : String) : Bool :=
+  ["RegisterOperation::read", "RegisterOperation::read_async", "BufferOperation::read", "BufferOperation::read_exact",
+   "BufferOperation::read_async", "BufferOperation::read_exact_async", "embedded_io::Read::read",
+   "embedded_io_async::Read::read"].contains name
+def isWriteOp (name : String) : Bool :=
+  ["RegisterOperation::write", "RegisterOperation::write_with_zero", "RegisterOperation::write_async",
+   "RegisterOperation::write_with_zero_async", "BufferOperation::write", "BufferOperation::write_all",
+   "BufferOperation::flush", "BufferOperation::write_async", "BufferOperation::write_all_async",
+   "BufferOperation::flush_async", "embedded_io::Write::write", "embedded_io::Write::flush",
+   "embedded_io_async::Write::write", "embedded_io_async::Write::flush"].contains name
+def isModifyOp (name : String) : Bool :=
+  ["RegisterOperation::modify", "RegisterOperation::modify_async"].contains name
+
+/-- Every operation found in the source is classified (a new public operation breaks this). -/
+theorem every_operation_classified :
+    ∀ op ∈ opBounds, (isReadOp op.1 || isWriteOp op.1 || isModifyOp op.1) = true := by decide
+
+/-- … and every operation the property lists exists in the source. -/
+theorem every_listed_operation_exists :
+    ∀ n ∈ ["RegisterOperation::read", "RegisterOperation::write", "RegisterOperation::write_with_zero",
+           "RegisterOperation::modify", "RegisterOperation::read_async", "RegisterOperation::write_async",
+           "RegisterOperation::write_with_zero_async", "RegisterOperation::modify_async",
+           "BufferOperation::read", "BufferOperation::write", "BufferOperation::flush",
+           "BufferOperation::read_exact", "BufferOperation::write_all", "embedded_io::Read::read",
+           "embedded_io::Write::write", "embedded_io::Write::flush", "embedded_io_async::Read::read",
+           "embedded_io_async::Write::write", "embedded_io_async::Write::flush"],
+      (opBounds.map (·.1)).contains n = true := by decide
+
+/-- **C17, runtime crate.** For every marker type and every operation: read operations are
+    available iff the access includes reading, write operations iff it includes writing, modify iff
+    both; `RC` and `CO` offer nothing. -/
+theorem operation_available_iff :
+    ∀ marker ∈ markers, ∀ op ∈ opBounds,
+      available marker op =
+        ((!isReadOp op.1 || includesRead marker) && (!isWriteOp op.1 || includesWrite marker) &&
+         (!isModifyOp op.1 || (includesRead marker && includesWrite marker))) := by decide
+
+theorem rc_co_offer_nothing : ∀ op ∈ opBounds, available "RC" op = false ∧ available "CO" op = false := by
+  decide
+
+theorem markers_are_the_five : markers = ["WO", "RO", "RW", "RC", "CO"] := by decide
+
+/-- **Field getters / setters** (generator): a field has a getter iff it is readable and a setter
+    iff it is writable — `get_read_function` / `get_write_function` emit nothing otherwise. -/
+theorem field_getter_setter_iff (bo : DDV.Bits.ByteOrder) (bito : DDV.Bits.BitOrder) (f : LField) :
+    (getterJson bo bito f = Lean.Json.null ↔ f.access.readable = false) ∧
+    (setterJson bo bito f = Lean.Json.null ↔ f.access.writable = false) := by
+  unfold getterJson setterJson
+  constructor
+  · cases h : f.access.readable
+    · simp
+    · simp only [Bool.not_true, Bool.false_eq_true, if_false, reduceCtorEq, iff_false]
+      intro hh
+      simp [Lean.Json.mkObj] at hh
+  · cases h : f.access.writable
+    · simp
+    · simp only [Bool.not_true, Bool.false_eq_true, if_false, reduceCtorEq, iff_false]
+      intro hh
+      simp [Lean.Json.mkObj] at hh
+
+/-- **Effective access** (front ends): own setting, else the global default, else read-write. -/
+theorem effective_register_access (g : GlobalConfig) (c : ACommon) (access : Option Access)
+    (bo : Option DDV.Bits.ByteOrder) (bito : Option DDV.Bits.BitOrder) (address : Int) (size : Nat) (o : Object)
+    (syn : Syntax)
+    (h : (match syn with | .dsl => dslObj g | _ => manObj g)
+          (.register c access bo bito address size none none none none []) = .ok o) :
+    ∃ r, o = .register r ∧ r.access = access.getD g.defaultRegisterAccess := by
+  cases syn <;> simp only at h <;>
+  · first | unfold dslObj at h | unfold manObj at h
+    simp only [bind, Except.bind, pure, Except.pure, List.mapM_nil, manReset, dslReset, checkRepeat] at h
+    cases ha : checkAddr address with
+    | error e => rw [ha] at h; cases h
+    | ok a =>
+      rw [ha] at h
+      simp only at h
+      cases hs : checkU32 size with
+      | error e => rw [hs] at h; cases h
+      | ok sz =>
+        rw [hs] at h
+        simp only [Except.ok.injEq] at h
+        exact ⟨_, h.symm, rfl⟩
+
+theorem default_config_is_read_write : (lowerConfig {}).defaultRegisterAccess = .rw ∧
+    (lowerConfig {}).defaultFieldAccess = .rw ∧ (lowerConfig {}).defaultBufferAccess = .rw := by decide
+
 end DDV.Props.C17
